@@ -33,8 +33,16 @@ Record chk := Chk {
   ck_out    : N;               (* Output *)
   ck_rest   : N;               (* Name, Notes, Definition, ... *)
   ck_sname  : N;               (* ServiceName  (the catalog copies it from its service) *)
-  ck_stags  : N                (* ServiceTags  (the catalog copies it from its service) *)
+  ck_stags  : N;               (* ServiceTags  (the catalog copies it from its service) *)
+  ck_aux    : N                (* Type, Interval, Timeout, ExposedPort: HealthCheck.IsSame does NOT compare them *)
 }.
+
+(* HealthCheck.IsSame: every modelled field except [ck_aux] *)
+Definition chk_cmp (d : chk) : N * N * N * N * N * N :=
+  (ck_sid d, ck_status d, ck_out d, ck_rest d, ck_sname d, ck_stags d).
+Definition chk_isame (a b : chk) : bool := bool_decide (chk_cmp a = chk_cmp b).
+Definition chk_blank (d : chk) : chk :=
+  Chk (ck_sid d) (ck_status d) 0 (ck_rest d) (ck_sname d) (ck_stags d) (ck_aux d).
 
 Global Instance svc_eq_dec : EqDecision svc.
 Proof. solve_decision. Defined.
@@ -44,7 +52,9 @@ Proof. solve_decision. Defined.
 (* ServiceState / CheckState.  [se_def = None] is the placeholder updateSyncState creates for a
    catalog entry that has no local counterpart: &ServiceState{Deleted: true}. *)
 Record sentry := SE { se_def : option svc; se_tok : N; se_sync : bool; se_del : bool; se_loc : bool }.
-Record centry := CE { ce_def : option chk; ce_tok : N; ce_sync : bool; ce_del : bool; ce_loc : bool }.
+(* [ce_defer]: a deferred-output timer is pending (CheckState.DeferCheck != nil) *)
+Record centry := CE { ce_def : option chk; ce_tok : N; ce_sync : bool; ce_del : bool; ce_loc : bool;
+                      ce_defer : bool }.
 
 Record lstate := LS {
   l_node : bool;               (* nodeInfoInSync *)
@@ -64,11 +74,15 @@ Record cfg := Cfg {
   t_user : N; t_agent : N; t_cfg : N;   (* tokens; 0 = "" *)
   g_ni : N;                             (* the agent's own node info *)
   g_consul : N;                         (* id of the service "consul" *)
-  g_serf : N                            (* id of the check "serfHealth" *)
+  g_serf : N;                           (* id of the check "serfHealth" *)
+  g_interval : bool                     (* CheckUpdateInterval > 0 (the agent's default is 5m) *)
 }.
 
 Definition se_set_sync (b : bool) (e : sentry) : sentry := SE (se_def e) (se_tok e) b (se_del e) (se_loc e).
-Definition ce_set_sync (b : bool) (e : centry) : centry := CE (ce_def e) (ce_tok e) b (ce_del e) (ce_loc e).
+Definition ce_set_sync (b : bool) (e : centry) : centry :=
+  CE (ce_def e) (ce_tok e) b (ce_del e) (ce_loc e) (ce_defer e).
+Definition ce_clear_defer (e : centry) : centry :=
+  CE (ce_def e) (ce_tok e) (ce_sync e) (ce_del e) (ce_loc e) false.
 Definition se_set_def (d : svc) (e : sentry) : sentry := SE (Some d) (se_tok e) (se_sync e) (se_del e) (se_loc e).
 
 (* ------------------------------------------------------------------ RPCs *)
@@ -110,9 +124,9 @@ Definition reg_node (ni : N) (skip : bool) (n : option N) : option N :=
 Definition status_default (s : N) : N := if N.eqb s 0 then 3%N else s.
 
 Definition stamp (svcs : gmap N svc) (c : chk) : option chk :=
-  if N.eqb (ck_sid c) 0 then Some (Chk (ck_sid c) (status_default (ck_status c)) (ck_out c) (ck_rest c) (ck_sname c) (ck_stags c))
+  if N.eqb (ck_sid c) 0 then Some (Chk (ck_sid c) (status_default (ck_status c)) (ck_out c) (ck_rest c) (ck_sname c) (ck_stags c) (ck_aux c))
   else match svcs !! ck_sid c with
-       | Some s => Some (Chk (ck_sid c) (status_default (ck_status c)) (ck_out c) (ck_rest c) (sv_name s) (sv_tags s))
+       | Some s => Some (Chk (ck_sid c) (status_default (ck_status c)) (ck_out c) (ck_rest c) (sv_name s) (sv_tags s) (ck_aux c))
        | None => None
        end.
 
@@ -188,15 +202,18 @@ Definition uss_svc (ol : option sentry) (orr : option svc) : option sentry :=
            end
   end.
 
-Definition uss_chk (ol : option centry) (orr : option chk) : option centry :=
+(* with CheckUpdateInterval > 0 and a deferred-output timer pending the Output is blanked on
+   both sides before the comparison ("the timer will mark the check out of sync for us") *)
+Definition uss_chk (interval : bool) (ol : option centry) (orr : option chk) : option centry :=
   match ol, orr with
   | None, None => None
   | Some e, None => Some (ce_set_sync false e)
-  | None, Some _ => Some (CE None 0 false true false)
+  | None, Some _ => Some (CE None 0 false true false false)
   | Some e, Some r =>
       if ce_del e then Some e
       else match ce_def e with
-           | Some d => Some (ce_set_sync (bool_decide (d = r)) e)
+           | Some d => Some (ce_set_sync (if interval && ce_defer e then chk_isame (chk_blank d) (chk_blank r)
+                                          else chk_isame d r) e)
            | None => Some e
            end
   end.
@@ -208,7 +225,7 @@ Definition exempt {A} (id : N) (loc : gmap N A) (m : gmap N A) : gmap N A :=
 Definition uss_apply (g : cfg) (st : lstate) (c : cat) : lstate :=
   LS (if bool_decide (c_node c = Some (g_ni g)) then l_node st else false)
      (exempt (g_consul g) (l_svcs st) (merge uss_svc (l_svcs st) (c_svcs c)))
-     (exempt (g_serf g) (l_chks st) (merge uss_chk (l_chks st) (c_chks c))).
+     (exempt (g_serf g) (l_chks st) (merge (uss_chk (g_interval g)) (l_chks st) (c_chks c))).
 
 (* result: state, remaining faults, log, failed? *)
 Definition update_sync_state (g : cfg) (st : lstate) (c : cat) (fs : list outcome)
@@ -287,14 +304,17 @@ Definition sync_check (g : cfg) (id : N) (e : centry) (d : chk) (st : lstate) (c
             end in
   let ev o := Ev KSyncChk id tok (l_node st) (is_some sv) o [] in
   let '(o, fs') := next fs in
-  let marked node := LS node (l_svcs st) (<[id := ce_set_sync true e]> (l_chks st)) in
+  (* SyncChanges stops and forgets a pending deferred-output timer before it calls syncCheck *)
+  let e1 := ce_clear_defer e in
+  let marked node := LS node (l_svcs st) (<[id := ce_set_sync true e1]> (l_chks st)) in
+  let failed := LS (l_node st) (l_svcs st) (<[id := e1]> (l_chks st)) in
   match o with
   | OOk => match cat_register (g_ni g) (l_node st) sv {[id := d]} c with
            | Some c' => (marked true, c', fs', ev OOk, false)
-           | None => (st, c, fs', ev OFail, true)
+           | None => (failed, c, fs', ev OFail, true)
            end
   | ODenied | ONotFound => (marked (l_node st), c, fs', ev o, false)
-  | _ => (st, c, fs', ev OFail, true)
+  | _ => (failed, c, fs', ev OFail, true)
   end.
 
 (* deleteService prunes the local checks that are marked deleted and bound to the service *)
@@ -407,15 +427,17 @@ Definition add_service (id : N) (d : svc) (tok : N) (loc : bool) (st : lstate) :
 
 (* addCheckLocked + setCheckStateLocked.  "service exists" looks at the map, deleted or not. *)
 Definition same_chk (d : chk) (old : centry) : bool :=
-  match ce_def old with Some od => bool_decide (d = od) | None => false end.
+  match ce_def old with Some od => chk_isame d od | None => false end.
 
 Definition add_check (id : N) (d : chk) (tok : N) (loc : bool) (st : lstate) : lstate * res :=
   if negb (N.eqb (ck_sid d) 0) && negb (is_some (l_svcs st !! ck_sid d)) then (st, RErr)
   else match l_chks st !! id with
        | Some old =>
            (LS (l_node st) (l_svcs st)
-               (<[id := CE (Some d) tok (ce_sync old && negb (ce_del old) && same_chk d old) false loc]> (l_chks st)), ROk)
-       | None => (LS (l_node st) (l_svcs st) (<[id := CE (Some d) tok false false loc]> (l_chks st)), ROk)
+               (* a pending deferred-output timer is carried over and forces out-of-sync *)
+               (<[id := CE (Some d) tok (negb (ce_defer old) && (ce_sync old && negb (ce_del old) && same_chk d old))
+                           false loc (ce_defer old)]> (l_chks st)), ROk)
+       | None => (LS (l_node st) (l_svcs st) (<[id := CE (Some d) tok false false loc false]> (l_chks st)), ROk)
        end.
 
 (* agent.addCheckLocked refuses a check for a service that State.Service does not return
@@ -456,7 +478,7 @@ Definition remove_service (id : N) (st : lstate) : lstate * res :=
 Definition remove_check (id : N) (st : lstate) : lstate * res :=
   match l_chks st !! id with
   | Some e => if ce_del e then (st, RErr)
-              else (LS (l_node st) (l_svcs st) (<[id := CE (ce_def e) (ce_tok e) false true (ce_loc e)]> (l_chks st)), ROk)
+              else (LS (l_node st) (l_svcs st) (<[id := CE (ce_def e) (ce_tok e) false true (ce_loc e) (ce_defer e)]> (l_chks st)), ROk)
   | None => (st, RErr)
   end.
 
@@ -486,19 +508,36 @@ Definition live_checks_of (id : N) (st : lstate) : list N :=
 Definition remove_service_agent (id : N) (st : lstate) : lstate * res :=
   remove_service_with_checks id (live_checks_of id st) st.
 
-(* UpdateCheck with CheckUpdateInterval = 0 (no deferred output sync) *)
-Definition update_check (id status out : N) (st : lstate) : lstate :=
+(* UpdateCheck.  With CheckUpdateInterval > 0 an update that changes only the Output is
+   deferred: the local definition changes, InSync does not, a timer is started. *)
+Definition update_check (interval : bool) (id status out : N) (st : lstate) : lstate :=
   match l_chks st !! id with
   | Some e =>
       if ce_del e then st
       else match ce_def e with
            | Some d =>
                if N.eqb (ck_status d) status && N.eqb (ck_out d) out then st
+               else if interval && N.eqb (ck_status d) status then
+                 LS (l_node st) (l_svcs st)
+                    (<[id := CE (Some (Chk (ck_sid d) status out (ck_rest d) (ck_sname d) (ck_stags d) (ck_aux d)))
+                                (ce_tok e) (ce_sync e) false (ce_loc e) true]> (l_chks st))
                else LS (l_node st) (l_svcs st)
-                       (<[id := CE (Some (Chk (ck_sid d) status out (ck_rest d) (ck_sname d) (ck_stags d)))
-                                   (ce_tok e) false false (ce_loc e)]> (l_chks st))
+                       (<[id := CE (Some (Chk (ck_sid d) status out (ck_rest d) (ck_sname d) (ck_stags d) (ck_aux d)))
+                                   (ce_tok e) false false (ce_loc e) (ce_defer e)]> (l_chks st))
            | None => st
            end
+  | None => st
+  end.
+
+(* the deferred-output timer fires: the timer is forgotten and, unless the entry is marked
+   deleted, the check is marked out of sync.  No-op when no timer is pending. *)
+Definition timer_fires (id : N) (st : lstate) : lstate :=
+  match l_chks st !! id with
+  | Some e =>
+      if ce_defer e then
+        LS (l_node st) (l_svcs st)
+           (<[id := CE (ce_def e) (ce_tok e) (if ce_del e then ce_sync e else false) (ce_del e) (ce_loc e) false]> (l_chks st))
+      else st
   | None => st
   end.
 
@@ -512,6 +551,7 @@ Inductive step :=
 | SAddChkAgent (id : N) (d : chk) (tok : N) (loc : bool)     (* through the agent's guard *)
 | SRemoveChk (id : N)
 | SUpdChk (id status out : N)
+| STimer (id : N)                             (* the deferred-output timer of a check fires *)
 | SUpdateSyncState
 | SSyncChanges (os oc : list N)
 | SSyncFull (os oc : list N)
@@ -533,7 +573,8 @@ Definition do_step (g : cfg) (s : step) (st : lstate) (c : cat) (fs : list outco
   | SAddChk id d tok loc => let '(st', r) := add_check id d tok loc st in (st', c, fs, [], r)
   | SAddChkAgent id d tok loc => let '(st', r) := add_check_agent id d tok loc st in (st', c, fs, [], r)
   | SRemoveChk id => let '(st', r) := remove_check id st in (st', c, fs, [], r)
-  | SUpdChk id status out => (update_check id status out st, c, fs, [], ROk)
+  | SUpdChk id status out => (update_check (g_interval g) id status out st, c, fs, [], ROk)
+  | STimer id => (timer_fires id st, c, fs, [], ROk)
   | SUpdateSyncState => let '(st', fs', log, failed) := update_sync_state g st c fs in (st', c, fs', log, res_of_err failed)
   | SSyncChanges os oc => let '(st', c', fs', log, err) := sync_changes g os oc st c fs in (st', c', fs', log, res_of_err err)
   | SSyncFull os oc => let '(st', c', fs', log, err) := sync_full g os oc st c fs in (st', c', fs', log, res_of_err err)
